@@ -67,7 +67,8 @@ IFACES = ['org.ex.I', 'org.ex.Ix', 'org.ex.J']
 MEMBERS = ['M', 'Mx', 'N']
 DESTS = [None, ':1.42', ':1.5', 'org.ex.D']
 SENDERS = [None, ':1.7', ':1.8']
-STRS = ['x', 'y', '', 'xy', '/a/b', '/a/bc', '/a/b/', '/a/', '/', '/a/b/c', '/a', 'a,b', "it's", 'k=v', 'é']
+STRS = ['x', 'y', '', 'xy', '/a/b', '/a/bc', '/a/b/', '/a/', '/', '/a/b/c', '/a', 'a,b', "it's", 'k=v', 'é',
+        '5', 'True', '1.5', '0', "['x']"]     # the last five print like the NONSTR arguments: argN must still not match those
 OPATHS = ['/a/b', '/a/bc', '/', '/a/b/c', '/a']
 NONSTR = [[5, 'i'], [True, 'b'], [1.5, 'd'], [['x'], 'as'], [0, 'u'], [['/a/b', 7], '(si)']]
 RULE_PATHS = PATHS + ['', '/a/bcd', '/zz', '/a/b/cd']      # object paths (and the empty value): values a daemon accepts
